@@ -5,7 +5,9 @@ never imports cij, never reads the packaged JSON schema.
 Reading of the statement that this file fixes
 ---------------------------------------------
 A configuration is a nested mapping.  A *leaf* is a (path, value) pair whose value is not a mapping
-(scalars and lists are leaves: a list is taken or replaced as a whole).
+(scalars and lists are leaves: a list is taken or replaced as a whole).  An explicit null (YAML `key:` /
+`key: ~`, JSON null, Python None) and the falsy scalars 0, 0.0, false, '' and [] are ordinary leaf values: a
+user who wrote them specified them, and they must survive.
 
   effective(user, default).leaves  =  user.leaves
                                       +  { (p, v) in default.leaves : the user specified nothing at,
